@@ -335,10 +335,17 @@ def showDelta (r : ARec) : Option String :=
   else if d.isEmpty then none
   else some (s!"a{r.id}:" ++ ",".intercalate (d.map showObs))
 
+def insertRec (r : ARec) : List ARec → List ARec
+  | [] => [r]
+  | q :: rest => if r.id < q.id then r :: q :: rest else q :: insertRec r rest
+
+/-- actors by id (the order the harness prints them in) -/
+def sortById (l : List ARec) : List ARec := l.foldl (fun acc r => insertRec r acc) []
+
 def W.run (w : W) : String × W :=
   -- two passes: supervisors may receive events from actors settled after them
   let w := w.settleAll.settleAll
-  let parts := w.actors.filterMap showDelta
+  let parts := (sortById w.actors).filterMap showDelta
   let w := { w with actors := w.actors.map fun r => { r with reported := r.st.log.length } }
   ((if parts.isEmpty then "-" else " ".intercalate parts), w)
 
